@@ -1,5 +1,5 @@
 """C05 — BGP: each peer is offered exactly the intended routes (Model/BgpAds.v)."""
-import json
+import json, os
 import vlib
 
 CLOSURE = ["Model/BgpAds.v", "Proofs/BgpAdsP.v", "Proofs/BgpAdsPrefix.v"]
@@ -33,6 +33,25 @@ def run(ctx):
             ctx.corr_broken.append("harness TestVerifBgpSessParams failed: " + log[-1500:])
 
     sessparams(6 if ctx.tier == "quick" else 100, ctx.seed, "sp")
+
+    # the whole speaker (speaker/main.go decides per protocol what is recorded as announced and therefore what is later
+    # withdrawn): histories of TestVerifSpk; only the route-set oracle from the statement is taken here (routes on the
+    # sessions == routes of the Services this node must announce)
+    def whole_speaker(nh, seed, tag):
+        ov = {"internal/layer2/zz_verif_spk.go": os.path.join(os.path.dirname(os.path.dirname(os.path.abspath(__file__))),
+                                                             "harness", "internal", "layer2", "zz_verif_spk.go")}
+        # + TestVerifSpkStack: real reconcilers (Service with endpoints, Node, Config, ServiceBGPStatus) on a fake API server
+        recs, hok, log = ctx.go_harness("speaker", ["zz_verif_bgp_test.go", "zz_verif_spk_test.go", "zz_verif_stack_test.go"], "TestVerifSpk(Stack)?$",
+                                        n=nh, seed=seed, tag=tag, extra_overlay=ov)
+        for r in recs:
+            if r.get("t") == "fail" and r.get("sig") in ("bgp-announced-state-differs-from-eligibility", "bgp-status-differs-from-sessions"):
+                ctx.oracle_fail(r["sig"], r.get("what", ""), r.get("replay"))
+            elif r.get("t") == "stat" and r["k"].startswith(("elig_", "stack_")):
+                state["stats"]["spk:" + r["k"]] = state["stats"].get("spk:" + r["k"], 0) + r["v"]
+        if not hok and not any("does not build" in c for c in ctx.corr_broken):
+            ctx.corr_broken.append("harness TestVerifSpk (whole-speaker part of C05) failed: " + log[-1500:])
+
+    whole_speaker(30 if ctx.tier == "quick" else 400, ctx.seed, "spk")
     mism = []
     if cases and ok:
         mism = ctx.coq_cases("Run_BgpAds", "bcase", [c["coq"] for c in cases], shard=8 if ctx.tier == "quick" else 100)
@@ -45,7 +64,7 @@ def run(ctx):
         for k in ("op_set", "op_del_announced", "op_cfg", "op_node", "oracle_nonempty_route_sets", "services_with_peers",
                   "sessions_closed_by_node", "sessions_closed_by_cfg", "final_prefix_shared_by_services", "unchanged_peer_kept_checks",
                   "whole_cfg", "whole_set", "whole_del", "whole_dual_stack_across_pools", "whole_expected_routes",
-                  "sessparams_checks", "sessparams_field:PasswordRef.Name", "sessparams_field:PasswordRef.Namespace", "sessparams_field:NodeSelectors"):
+                  "status_checks", "status_with_several_peers", "spk:stack_status_checks", "sessparams_checks", "sessparams_field:PasswordRef.Name", "sessparams_field:PasswordRef.Namespace", "sessparams_field:NodeSelectors"):
             if st.get(k, 0) == 0:
                 raise vlib.Broken("generator degenerate: counter %r is zero: %r" % (k, st))
 
